@@ -418,6 +418,8 @@ class Model:
             "DATA": z3.ArraySort(Sim, self.Data),
             # ghost: the time of the last step the simulator BEGAN (DESIGN 8: begun[s])
             "BGd": z3.ArraySort(Sim, B), "BGv": z3.ArraySort(Sim, T),
+            # output cache (cache=True): which output times have an entry
+            "OUTP": z3.ArraySort(Sim, z3.ArraySort(I, B)),
         }
         self.J = 2  # small scope: parallel trigger edges per ordered pair
         self.events = None
@@ -680,6 +682,10 @@ class Model:
             if name == "pre_length":
                 return a.dpre(d)
             raise Unsupported(f"TieredInterval.{name}")
+        if isinstance(obj, OutputsH):
+            if name == "items":
+                return Builtin("outputs.items", lambda it2, node2, obj=obj: OutItems(obj.sim))
+            raise Unsupported(f"outputs.{name}")
         if isinstance(obj, PushH):
             if name == "items":
                 return Builtin("output_to_push.items", lambda it2, node2, obj=obj: PushItems(self, obj.sim))
@@ -797,6 +803,14 @@ class Model:
             if name == "rt_start":
                 put("rt_start", v)
                 return True
+            if name == "outputs":
+                if not isinstance(v, FilteredOut):
+                    raise Unsupported("sim.outputs = <not a filtered copy of a cache>")
+                base = h["OUTP"][v.sim]
+                new = z3.Const(f"outp!{next(_q)}", z3.ArraySort(z3.IntSort(), z3.BoolSort()))
+                it.p.assume(z3.ForAll([v.k], new[v.k] == z3.And(base[v.k], v.cond if is_z3(v.cond) else z3.BoolVal(bool(v.cond)))))
+                put("OUTP", new)
+                return True
             if name == "data":
                 if not isinstance(v, OutData):
                     raise Unsupported("sim.data = <not a get_data reply>")
@@ -839,6 +853,9 @@ class Model:
             raise Unsupported("truthiness of a bag")
         if isinstance(v, SimType):
             return True
+        if isinstance(v, OutputsH):
+            k = z3.Int(f"k!o{next(_q)}")
+            return z3.And(self.has_outputs(v.sim), z3.Exists([k], self.heap(it)["OUTP"][v.sim][k]))
         if isinstance(v, OutReq):
             return v.nonempty
         if isinstance(v, (OutData, TaskH)):
@@ -1111,6 +1128,22 @@ class Model:
 
     def comprehension(self, it, e, env, kind):
         from ..interp import Env
+        if kind == "dict" and len(e.generators) == 1:
+            # {k: v for k, v in sim.outputs.items() if cond(k)}: the same entries in the same order, filtered
+            g = e.generators[0]
+            src = it.eval(g.iter, env)
+            if isinstance(src, OutItems) and isinstance(g.target, ast.Tuple) and len(g.target.elts) == 2 \
+                    and isinstance(e.key, ast.Name) and isinstance(e.value, ast.Name) \
+                    and e.key.id == g.target.elts[0].id and e.value.id == g.target.elts[1].id:
+                k = z3.Int(f"k!f{next(_q)}")
+                sub = Env({g.target.elts[0].id: k, g.target.elts[1].id: Opaque("cached reply")}, env)
+                it.pure_depth += 1
+                try:
+                    cond = S.And(*[it.truth(it.eval(c, sub)) for c in g.ifs])
+                finally:
+                    it.pure_depth -= 1
+                return FilteredOut(src.sim, k, cond)
+            return NotImplemented
         if kind not in ("list", "gen") or len(e.generators) != 1:
             return NotImplemented
         g = e.generators[0]
@@ -1558,6 +1591,16 @@ class DataEnt:
         self.term, self.eid = term, eid
 
 
+class OutItems:
+    def __init__(self, sim):
+        self.sim = sim
+
+
+class FilteredOut:
+    def __init__(self, sim, k, cond):
+        self.sim, self.k, self.cond = sim, k, cond
+
+
 class OutReq:
     def __init__(self, nonempty):
         self.nonempty = nonempty
@@ -1602,7 +1645,9 @@ class PushItems:
 
     def arbitrary(self, it):
         M = self.M
-        return ((it.p.fresh("src_eid", M.alg.Str), it.p.fresh("src_attr", M.alg.Str)), PushList(M, self.sim))
+        port = (it.p.fresh("src_eid", M.alg.Str), it.p.fresh("src_attr", M.alg.Str))
+        it.p.ghost["last_push_port"] = port
+        return (port, PushList(M, self.sim))
 
 
 class PushList:
@@ -1615,7 +1660,10 @@ class PushList:
         dest = it.p.fresh("push_dest", a.Sim)
         d = it.p.fresh("push_delay", a.D)
         it.p.assume(S.And(a.d_wf(d), a.dlen(d) >= 1) if not a.small else d >= 0)
-        return (dest, M.D_(d), (it.p.fresh("dest_eid", a.Str), it.p.fresh("dest_attr", a.Str)))
+        item = (dest, M.D_(d), (it.p.fresh("dest_eid", a.Str), it.p.fresh("dest_attr", a.Str)))
+        it.p.ghost["last_push"] = {"dest": dest, "delay": d, "dest_eid": item[2][0], "dest_attr": item[2][1],
+                                   "events_before": len(it.p.ghost.get("events", []))}
+        return item
 
 
 class SimsColl:
@@ -1623,9 +1671,16 @@ class SimsColl:
 
     def __init__(self, M):
         self.M = M
+        self.key_sort = None if M.alg.small else M.alg.Sim   # (small scope: plain index-free rule)
 
     def arbitrary(self, it):
         return it.p.fresh("isim", self.M.alg.Sim)
+
+    def member(self, x):
+        return z3.BoolVal(True)
+
+    def key_of(self, item):
+        return item
 
 
 class DictColl:
